@@ -118,3 +118,15 @@ func (vc *ValidationCeremony) VerifC17Cached(height uint64) (values []VerifC17Ca
 }
 
 func VerifC17WordsRnd(hash [32]byte) uint64 { return getWordsRnd(hash) }
+
+// VerifC17MempoolWordsRnd reads the words-rnd the mempool loop (newTxLoop) noted
+// for a sender of gossiped short answers. The harness uses it only as a barrier:
+// the loop is a single FIFO goroutine, so once a sentinel transaction shows up
+// here every mempool event published before it has been handled.
+func (vc *ValidationCeremony) VerifC17MempoolWordsRnd(addr common.Address) (uint64, bool) {
+	v, ok := vc.flipWordsInfo.pool.Load(addr)
+	if !ok {
+		return 0, false
+	}
+	return v.(uint64), true
+}
